@@ -161,10 +161,10 @@ func CheckAPI(c APICase) *kit.Violation {
 		return rec, nil
 	}
 	isPage := func(rec *httptest.ResponseRecorder) bool {
-		return rec.Code == http.StatusOK && strings.HasPrefix(rec.Header().Get("Content-Type"), "text/html")
+		return rec.Code == http.StatusOK && strings.HasPrefix(rec.Result().Header.Get("Content-Type"), "text/html")
 	}
 	isSpec := func(rec *httptest.ResponseRecorder) bool {
-		return rec.Code == http.StatusOK && rec.Header().Get("Content-Type") == "application/json" && rec.Body.String() == specBytes
+		return rec.Code == http.StatusOK && rec.Result().Header.Get("Content-Type") == "application/json" && rec.Body.String() == specBytes
 	}
 
 	uiDoc := c.UIDoc()
@@ -178,14 +178,14 @@ func CheckAPI(c APICase) *kit.Violation {
 	if uiDoc == specDoc && absolute {
 		// both documents claim one path: the statement does not say which wins; the operations are still judged
 		if !isPage(rec) && !isSpec(rec) {
-			return kit.Failf("NOT-ANSWERED GET %q is the page's and the spec's path, but the answer is %d %q\n%s", uiDoc, rec.Code, rec.Header().Get("Content-Type"), c.brief())
+			return kit.Failf("NOT-ANSWERED GET %q is the page's and the spec's path, but the answer is %d %q\n%s", uiDoc, rec.Code, rec.Result().Header.Get("Content-Type"), c.brief())
 		}
 	} else if !absolute && isSpec(rec) {
 		// a relative spec reference: where the document lives is outside the statement, and here it lives on the
 		// page's own path; as above, the statement does not say which of the two wins
 	} else {
 		if !isPage(rec) {
-			return kit.Failf("NOT-ANSWERED GET %q is the page's document path, but the answer is %d %q\n%s", uiDoc, rec.Code, rec.Header().Get("Content-Type"), c.brief())
+			return kit.Failf("NOT-ANSWERED GET %q is the page's document path, but the answer is %d %q\n%s", uiDoc, rec.Code, rec.Result().Header.Get("Content-Type"), c.brief())
 		}
 		page := rec.Body.String()
 		sl := slots(c.Flavour, c.Template, c.title(), c.SpecURL, nil)
@@ -213,7 +213,7 @@ func CheckAPI(c APICase) *kit.Violation {
 			}
 			if !isSpec(rec) {
 				return kit.Failf("SPEC-REFERENCE the page at %q references %q; GET %q on the same handler answers %d %q %q, want the spec document as application/json\n%s",
-					uiDoc, ref, target.Path, rec.Code, rec.Header().Get("Content-Type"), clipN(rec.Body.String(), 200), c.brief())
+					uiDoc, ref, target.Path, rec.Code, rec.Result().Header.Get("Content-Type"), clipN(rec.Body.String(), 200), c.brief())
 			}
 			if path.Clean(target.Path) != specDoc {
 				return kit.Failf("HARNESS: referenced %q but the option locates the spec at %q\n%s", target.Path, specDoc, c.brief())
@@ -237,7 +237,7 @@ func CheckAPI(c APICase) *kit.Violation {
 		}
 		if hits[p] != before+1 || rec.Code != http.StatusOK {
 			return kit.Failf("OPERATION-UNREACHABLE GET %q (operation %q) answered %d %q %q and its handler ran %d times\n%s",
-				full, p, rec.Code, rec.Header().Get("Content-Type"), clipN(rec.Body.String(), 200), hits[p]-before, c.brief())
+				full, p, rec.Code, rec.Result().Header.Get("Content-Type"), clipN(rec.Body.String(), 200), hits[p]-before, c.brief())
 		}
 	}
 
@@ -256,11 +256,11 @@ func CheckAPI(c APICase) *kit.Violation {
 			}
 		case absolute && cl == specDoc:
 			if !isSpec(rec) {
-				return kit.Failf("NOT-ANSWERED %s cleans to the spec path, but the answer is %d %q %q\n%s", what, rec.Code, rec.Header().Get("Content-Type"), clipN(rec.Body.String(), 200), c.brief())
+				return kit.Failf("NOT-ANSWERED %s cleans to the spec path, but the answer is %d %q %q\n%s", what, rec.Code, rec.Result().Header.Get("Content-Type"), clipN(rec.Body.String(), 200), c.brief())
 			}
 		case cl == uiDoc:
 			if !isPage(rec) && !(isSpec(rec) && !absolute) {
-				return kit.Failf("NOT-ANSWERED %s cleans to the page's path, but the answer is %d %q\n%s", what, rec.Code, rec.Header().Get("Content-Type"), c.brief())
+				return kit.Failf("NOT-ANSWERED %s cleans to the page's path, but the answer is %d %q\n%s", what, rec.Code, rec.Result().Header.Get("Content-Type"), c.brief())
 			}
 		default:
 			if isPage(rec) {
